@@ -96,6 +96,29 @@ func showU(ch *dm.ChUnique) string {
 	return s
 }
 
+// showB prints the real table: slot-by-slot layout digest, and whether every stored value is found by the real probe
+// (direct oracle: a stranded value is a violation whatever the model says)
+func (x *mach) showB(ch *dm.ChUnique) string {
+	d := dm.VerifC04Dump(ch, false)
+	buf := dm.VerifC04Buf(ch)
+	var pos uint64
+	for i, v := range buf {
+		pos += uint64(i+1) * uint64(v)
+	}
+	lost, reachable, countOK := dm.VerifC04Unreachable(ch)
+	if !reachable {
+		x.h.Viol("unique-item-unreachable", "value %d is stored in the table but not reachable from its home slot (skip=%d sizeDegree=%d items=%d): the next insert of it is counted twice", lost, d.SkipDegree, d.SizeDegree, d.ItemsCount)
+	}
+	if !countOK {
+		x.h.Viol("unique-count-mismatch", "itemsCount=%d differs from the number of occupied slots (skip=%d sizeDegree=%d)", d.ItemsCount, d.SkipDegree, d.SizeDegree)
+	}
+	s := fmt.Sprintf("B nil=%d k=%d sd=%d n=%d z=%d slots=%d wf=%d pos=%d", b01(d.Nil), d.SkipDegree, d.SizeDegree, d.ItemsCount, b01(d.HasZero), len(buf), b01(reachable && countOK), pos)
+	if len(buf) <= 64 {
+		s += " buf=" + verifx.List(buf)
+	}
+	return s
+}
+
 // guard runs one op on the real code, turning a panic into "< panic"
 func (x *mach) guard(f func()) {
 	defer func() {
@@ -198,6 +221,7 @@ func (x *mach) opIns(r int, val uint64) {
 	x.guard(func() {
 		x.m[r].HLL.Insert(val)
 		x.h.Obs("%s", showU(&x.m[r].HLL))
+		x.h.Obs("%s", x.showB(&x.m[r].HLL))
 	})
 }
 
@@ -206,6 +230,7 @@ func (x *mach) opInsH(r int, hash uint32) {
 	x.guard(func() {
 		dm.VerifC04InsertHash(&x.m[r].HLL, hash)
 		x.h.Obs("%s", showU(&x.m[r].HLL))
+		x.h.Obs("%s", x.showB(&x.m[r].HLL))
 	})
 }
 
@@ -216,6 +241,7 @@ func (x *mach) opSeq(r int, base, stride uint32, n int) {
 			dm.VerifC04InsertHash(&x.m[r].HLL, (base+uint32(i)*stride)*2654435761) // well spread 32-bit values (arithmetic sequences would pile up in one table slot)
 		}
 		x.h.Obs("%s", showU(&x.m[r].HLL))
+		x.h.Obs("%s", x.showB(&x.m[r].HLL))
 	})
 }
 
@@ -228,6 +254,7 @@ func (x *mach) opMerge(r1, r2 int) {
 		x.drewObs(before, clone)
 		x.h.Obs("%s", showV(&x.m[r1].Value))
 		x.h.Obs("%s", showU(&x.m[r1].HLL))
+		x.h.Obs("%s", x.showB(&x.m[r1].HLL))
 	})
 }
 
@@ -236,6 +263,7 @@ func (x *mach) opUMerge(r1, r2 int) {
 	x.guard(func() {
 		x.m[r1].HLL.Merge(x.m[r2].HLL)
 		x.h.Obs("%s", showU(&x.m[r1].HLL))
+		x.h.Obs("%s", x.showB(&x.m[r1].HLL))
 	})
 }
 
@@ -248,6 +276,7 @@ func (x *mach) opMRead(r1, r2 int) {
 			return
 		}
 		x.h.Obs("%s", showU(&x.m[r1].HLL))
+		x.h.Obs("%s", x.showB(&x.m[r1].HLL))
 	})
 }
 
@@ -262,6 +291,7 @@ func (x *mach) opUm(r1, r2 int) {
 		}
 		x.m[r1].HLL = c
 		x.h.Obs("%s", showU(&x.m[r1].HLL))
+		x.h.Obs("%s", x.showB(&x.m[r1].HLL))
 	})
 }
 
@@ -320,6 +350,7 @@ func (x *mach) opTsSet(t int, l tsLeaf) {
 		x.t[t] = ts
 		x.h.Obs("%s", showT(ts))
 		x.h.Obs("%s", showU(ts.VerifC04Unique()))
+		x.h.Obs("%s", x.showB(ts.VerifC04Unique()))
 	})
 }
 
@@ -334,6 +365,7 @@ func (x *mach) opTsMerge(t1, t2 int) {
 		x.t[t1].VerifC04Merge(x.t[t2])
 		x.h.Obs("%s", showT(x.t[t1]))
 		x.h.Obs("%s", showU(x.t[t1].VerifC04Unique()))
+		x.h.Obs("%s", x.showB(x.t[t1].VerifC04Unique()))
 	})
 }
 
